@@ -296,6 +296,8 @@ def cases(M):
                 # asked for their boundaries one after the other under one week configuration, in both orders
                 yield {"k": "foldhist", "z": zn, "w": lo + r.randrange(hi - lo), "ti": i, "first": r.randrange(2), "wk": r.randrange(7), "u": t * US, "d": 0,
                        "units": ["second", "minute", "hour", "day"], "mid": touches_midnight}
+    if M.shard % 4 == 1:
+        yield {"k": "date-edge", "wk": 0, "z": "UTC", "u": 0, "ti": -1, "d": 0, "units": [], "mid": False}
     for j in range(60000 if thorough else 4000):
         u = gen.random_instant(r) if j % 2 else gen.modern_instant(r)
         yield {"z": r.choice(names), "u": u, "ti": -1, "d": 0, "units": list(UNITS), "wk": j % 7, "mid": False,
@@ -335,8 +337,44 @@ def _provenances(M, zn, u):
     return out
 
 
+def _date_edges(M):
+    """Date.start_of/end_of('week'|'day'|'month') in the first and last three weeks of the representable range, under all seven
+    week configurations: the boundary either is a representable date and must be returned, or is not and the call must raise"""
+    P = M.pendulum
+    lo, hi = dt.date.min.toordinal(), dt.date.max.toordinal()
+    try:
+        for wk in range(7):
+            P.week_starts_at(P.WeekDay(wk))
+            P.week_ends_at(P.WeekDay((wk - 1) % 7))
+            for o in list(range(lo, lo + 21)) + list(range(hi - 20, hi + 1)):
+                d = dt.date.fromordinal(o)
+                x = P.Date(d.year, d.month, d.day)
+                back = (d.weekday() - wk) % 7
+                for name, e in (("start_of", o - back), ("end_of", o - back + 6)):
+                    want = dt.date.fromordinal(e) if lo <= e <= hi else None
+                    M.quiet += 1
+                    try:
+                        try:
+                            got = getattr(x, name)("week")
+                            res = (got.year, got.month, got.day)
+                        except (OverflowError, ValueError) as ex:
+                            res = "raised-" + type(ex).__name__
+                    finally:
+                        M.quiet -= 1
+                    ok = res == (want.year, want.month, want.day) if want is not None else isinstance(res, str)
+                    M.check("date." + name, ok, f"C12/date:{name}:week:range-edge:" + ("raised-although-representable" if isinstance(res, str) else "wrong"),
+                            f"Date.{name}('week') at the end of the representable range", x=str(d), week_starts_at=wk, got=res, want=str(want))
+                    M.cls("date-edge", wk, o - lo if o < lo + 30 else o - hi, name)
+    finally:
+        P.week_starts_at(P.MONDAY)
+        P.week_ends_at(P.SUNDAY)
+
+
 def run(M, c):
     P = M.pendulum
+    if c.get("k") == "date-edge":
+        M.sample(c)
+        return _date_edges(M)
     kind = c.get("kind", "zone")
     wk = c["wk"]
     P.week_starts_at(P.WeekDay(wk))
